@@ -5,15 +5,19 @@
    acquisition step; Unlock releases everything.  Sorted = FALSE is the regression
    model (acquisition in map order): TLC finds the deadlock with 2 holders x 2 names.
    Properties: Exclusion, Independent (a holder compatible with everything held is
-   never blocked), no deadlock, and under fairness every holder gets inside. *)
+   never blocked), no deadlock, and under fairness every holder gets inside.
+   GlobalAcq = TRUE is a second regression model: requests for more than one name hold
+   one global mutex during their acquisition loop, so a request that waits for a busy
+   name blocks every other multi-name request, however disjoint: Independent fails. *)
 EXTENDS Naturals, Sequences, FiniteSets, TLC
-CONSTANTS Holders, Names, Sorted      \* Names is a set of naturals so that "sorted" is <
+CONSTANTS Holders, Names, Sorted, GlobalAcq      \* Names is a set of naturals so that "sorted" is <
 VARIABLES want,      \* holder -> function from a subset of Names to {"R","W"}   (fixed after Init)
           order,     \* holder -> sequence of names: the acquisition order
           pc,        \* holder -> index of the next name to acquire; Len+1 = inside; Len+2 = done
           announced, \* holder -> BOOLEAN: has announced a pending write lock on order[pc]
-          readers, writer, pendingW   \* per name: Go's writer-preferring RWMutex
-vars == <<want, order, pc, announced, readers, writer, pendingW>>
+          readers, writer, pendingW,  \* per name: Go's writer-preferring RWMutex
+          gmu                         \* GlobalAcq only: holder of the global acquisition mutex, or "none"
+vars == <<want, order, pc, announced, readers, writer, pendingW, gmu>>
 Maps == UNION { [S -> {"R","W"}] : S \in (SUBSET Names) \ {{}} }
 Perms(S) == { s \in [1..Cardinality(S) -> S] : \A i, j \in 1..Cardinality(S) : i # j => s[i] # s[j] }
 IsSorted(s) == \A i, j \in 1..Len(s) : i < j => s[i] < s[j]
@@ -23,25 +27,31 @@ Init == /\ want \in [Holders -> Maps]
            ELSE order \in { o \in [Holders -> UNION { Perms(S) : S \in SUBSET Names }] :
                              \A h \in Holders : { o[h][i] : i \in 1..Len(o[h]) } = DOMAIN want[h] /\ Len(o[h]) = Cardinality(DOMAIN want[h]) }
         /\ pc = [h \in Holders |-> 1] /\ announced = [h \in Holders |-> FALSE]
-        /\ readers = [n \in Names |-> {}] /\ writer = [n \in Names |-> "none"] /\ pendingW = [n \in Names |-> {}]
+        /\ readers = [n \in Names |-> {}] /\ writer = [n \in Names |-> "none"] /\ pendingW = [n \in Names |-> {}] /\ gmu = "none"
+Multi(h) == GlobalAcq /\ Len(order[h]) > 1
+GmuFree(h) == ~Multi(h) \/ gmu \in {"none", h}
+GmuAfter(h, newpc) == IF ~Multi(h) THEN gmu ELSE IF newpc > Len(order[h]) THEN "none" ELSE h
 Cur(h) == order[h][pc[h]]
 Acquiring(h) == pc[h] <= Len(order[h])
 RLock(h) == /\ Acquiring(h) /\ want[h][Cur(h)] = "R"
             /\ writer[Cur(h)] = "none" /\ pendingW[Cur(h)] = {}          \* a pending writer blocks new readers
+            /\ GmuFree(h) /\ gmu' = GmuAfter(h, pc[h] + 1)
             /\ readers' = [readers EXCEPT ![Cur(h)] = @ \cup {h}] /\ pc' = [pc EXCEPT ![h] = @ + 1]
             /\ UNCHANGED <<want, order, announced, writer, pendingW>>
 Announce(h) == /\ Acquiring(h) /\ want[h][Cur(h)] = "W" /\ ~announced[h]
+               /\ GmuFree(h) /\ gmu' = GmuAfter(h, pc[h])
                /\ pendingW' = [pendingW EXCEPT ![Cur(h)] = @ \cup {h}] /\ announced' = [announced EXCEPT ![h] = TRUE]
                /\ UNCHANGED <<want, order, pc, readers, writer>>
 WLock(h) == /\ Acquiring(h) /\ want[h][Cur(h)] = "W" /\ announced[h]
             /\ writer[Cur(h)] = "none" /\ readers[Cur(h)] = {}
+            /\ GmuFree(h) /\ gmu' = GmuAfter(h, pc[h] + 1)
             /\ writer' = [writer EXCEPT ![Cur(h)] = h] /\ pendingW' = [pendingW EXCEPT ![Cur(h)] = @ \ {h}]
             /\ announced' = [announced EXCEPT ![h] = FALSE] /\ pc' = [pc EXCEPT ![h] = @ + 1]
             /\ UNCHANGED <<want, order, readers>>
 Release(h) == /\ pc[h] = Len(order[h]) + 1
               /\ readers' = [n \in Names |-> readers[n] \ {h}]
               /\ writer' = [n \in Names |-> IF writer[n] = h THEN "none" ELSE writer[n]]
-              /\ pc' = [pc EXCEPT ![h] = @ + 1] /\ UNCHANGED <<want, order, announced, pendingW>>
+              /\ pc' = [pc EXCEPT ![h] = @ + 1] /\ UNCHANGED <<want, order, announced, pendingW, gmu>>
 AllDone == \A h \in Holders : pc[h] = Len(order[h]) + 2
 Next == (\E h \in Holders : RLock(h) \/ Announce(h) \/ WLock(h) \/ Release(h)) \/ (AllDone /\ UNCHANGED vars)
 Spec == Init /\ [][Next]_vars /\ \A h \in Holders : WF_vars(RLock(h) \/ Announce(h) \/ WLock(h) \/ Release(h))
